@@ -1,5 +1,57 @@
-(** Property C16 — placeholder while the models are being written (replaced below). *)
-From Coq Require Import ZArith List.
+(** Property C16 — lock-based hash containers (StripedSet/Map, CuckooSet/Map) are linearizable across concurrent
+    resizes.  Only statements here; the proofs are in LV.Proofs.StripedConc*, LV.Proofs.StripingPolicy*,
+    LV.Proofs.CuckooConc*.
+
+    Models: LV.Model.StripingPolicy + LV.Model.StripedConc (cds/intrusive/striped_set.h with the policies of
+    striped_set/striping_policy.h), LV.Model.CuckooConc (cds/intrusive/cuckoo_set.h), one atomic access per step;
+    tied to the C++ by step correspondence (checks/C16.py).  [Conc.reach] = every sequence of thread choices,
+    any number of threads, any client programs, any fuel.
+
+    [ISet] (Proofs/StripedConcSpec.v) is the sequential set of items (key, node owner), one item per key;
+    [hist_of] reads the history off the "inv"/"ret" events of a trace; [tholder tr i] is the holder of cell
+    lock i according to the exchange / store events of the trace. *)
+From Coq Require Import ZArith List String Bool.
+From LV Require Import Base.Conc Base.Events Base.Lin Spec.Specs
+     Model.StripingPolicy Model.StripedConc Proofs.StripedConcSpec Proofs.StripedConcProofs.
 Import ListNotations.
-Example C16_placeholder : (1 + 1 = 2)%Z.
-Proof. reflexivity. Qed.
+Local Open Scope nat_scope.
+
+(** ** StripedSet, lock-striping policy *)
+
+(** [striping_cell_lock_stable]: for every schedule, at every reachable configuration
+    - the bucket of a hash [h] in the _current_ table belongs to the stripe [h mod nl] of the lock taken for [h]
+      (so the lock chosen before the table size was known is the right one afterwards);
+    - a thread that holds cell lock [i] (according to the trace) has the lock word set, exclusively;
+    - no step of another thread changes the bucket mask or any bucket of stripe [i]. *)
+Theorem C16_striping_cell_lock_stable :
+  forall cf, c_pol cf = Striping -> 0 < c_nl cf ->
+  forall ths (c : Conc.config G V ev), Conc.reach (init_cfg cf ths) c ->
+    (forall h, (h mod S (mask (Conc.shared c))) mod c_nl cf = h mod c_nl cf) /\
+    (forall i t, tholder (Conc.trace c) i = Some t -> i < c_nl cf /\ spins (Conc.shared c) i = true) /\
+    (forall i t t', tholder (Conc.trace c) i = Some t -> tholder (Conc.trace c) i = Some t' -> t = t') /\
+    (forall t' c', Conc.step_cfg c t' = Some c' ->
+       forall i t, tholder (Conc.trace c) i = Some t -> t <> t' ->
+         mask (Conc.shared c') = mask (Conc.shared c) /\
+         forall b, b mod c_nl cf = i -> get_b (buckets (Conc.shared c')) b = get_b (buckets (Conc.shared c)) b).
+Proof. exact striping_cell_lock_stable_thm. Qed.
+Print Assumptions C16_striping_cell_lock_stable.
+
+(** [striped_linearizable], striping policy: every concurrent history of insert (with or without functor),
+    update, unlink, erase (with or without functor), find / contains, emplace on the model — including histories
+    in which other threads resize the table — is linearizable to the sequential set. *)
+Theorem C16_striped_linearizable_striping :
+  forall cf, c_pol cf = Striping -> 0 < c_nl cf ->
+  forall ths (c : Conc.config G V ev), Conc.reach (init_cfg cf ths) c ->
+    linearizable ISet (hist_of (Conc.trace c)).
+Proof. exact striped_striping_linearizable. Qed.
+Print Assumptions C16_striped_linearizable_striping.
+
+(** non-vacuity: two threads insert keys that collide in one bucket (hash 16 k, threshold 1), the second
+    insertion triggers a resize (one store to the mask) while the other thread is running; both complete and the
+    history has four events *)
+Example C16_striped_striping_nonvacuous :
+  let r := StripedConc.run_case [0; 16; 0; 1; 5; 0; 6; 400]%Z [[[1;0;0;0]%Z]; [[1;1;0;0]%Z; [8;0;0;0]%Z]] [0;1;1;0;1;0;1]%nat 2000 in
+  snd r = true /\
+  List.length (filter (fun te => match snd te with EvAcc KSt [6%Z] _ => true | _ => false end) (fst r)) = 1 /\
+  List.length (hist_of (fst r)) = 6.
+Proof. vm_compute. repeat split. Qed.
